@@ -810,7 +810,7 @@ def _report(ctx, cases, results, compare=True, shrink=True):
                     case, res, fails = case2, res2, fails2
         for what, sig in fails:
             ctx.oracle_fail(case, '%s [%s, T=%s]' % (what, case['backend'], case['timeout']), sig)
-        if model is not None and not fails:
+        if model is not None and (not fails or known_only):
             ctx.compared()
             mitems = model[idx].split(';')
             if mitems != res['items']:
